@@ -163,4 +163,23 @@ PLAN = {
         min_nontrivial=dict(quick=1000, thorough=10000),
         runs=both("", dict(cases=12000, size=100, budget=40), dict(cases=300000, size=150, budget=900)),
     ),
+    "C11": dict(
+        rule=("coverage-guided libFuzzer campaigns (ASan+UBSan, library built with fuzzer instrumentation) on four in-process "
+              "targets: LP text and MPS text served through the public line-reader callback (first byte chooses with/without error "
+              "collector), basis files against 7 fixed problems (QSread_basis, QSread_and_load_basis), and gzip-compressed LP/MPS "
+              "through QSread_prob. Seed corpus: small valid files from the independent emitters (fresh per run); dictionaries of "
+              "keywords and pathological literals (1/0, 1e9999, --). Oracle inside the target: the call returns; an accepted problem "
+              "must dump consistently through the whole query API, be written in LP and MPS form, have its LP output re-readable when "
+              "C08's precondition holds, be solvable (<=10x10, 200 iterations) with any OPTIMAL answer passing the exact certificate, "
+              "and be freed; a returned basis must have legal statuses and the right dimensions and be loadable. Inputs with an "
+              "exponent of >=5 digits are skipped and counted. Non-trivial = input accepted by the reader or rejected after >=3 "
+              "lines; distinct by content hash."),
+        technique="coverage-guided fuzzing (libFuzzer) with in-target semantic oracle",
+        engine="libfuzzer",
+        min_nontrivial=dict(quick=2000, thorough=20000),
+        runs=[dict(kind="fuzz", target="lp", quick=dict(jobs=6, time=30, max_len=4096), thorough=dict(jobs=6, time=900, max_len=65536, empty_corpus_jobs=1)),
+              dict(kind="fuzz", target="mps", quick=dict(jobs=5, time=30, max_len=4096), thorough=dict(jobs=5, time=900, max_len=65536, empty_corpus_jobs=1)),
+              dict(kind="fuzz", target="bas", quick=dict(jobs=3, time=30, max_len=2048), thorough=dict(jobs=3, time=900, max_len=65536, empty_corpus_jobs=1)),
+              dict(kind="fuzz", target="lpgz", quick=dict(jobs=2, time=30, max_len=4096), thorough=dict(jobs=2, time=900, max_len=65536))],
+    ),
 }
